@@ -32,6 +32,7 @@ RULE = (
     "tree of the in-place document - which includes the resolution of the outer footnote reference and '#target' "
     "link. Non-trivial: X has >= 2 block kinds and W has depth >= 2 or is include / substitution; distinct by case."
 )
+RULE += (' A link reference definition made inside X is also used by a later directive body (a later nested parse), which must resolve in both spellings.')
 ASSUMPTIONS = [
     "headings are excluded as the statement says; thematic breaks are excluded (docutils has no legal place for a "
     "transition inside an admonition: recorded under C01)",
@@ -183,9 +184,29 @@ def pf(nodes_list):
     return mask("".join(n.pformat() for n in nodes_list))
 
 
+_PROC_DIR = {}
+
+
+def _process_dir() -> str:
+    """One directory per worker process, reused for every case: the included file keeps its *path* while its content
+    changes from case to case, as a file does that is edited between two builds in one process."""
+    pid = os.getpid()
+    if pid not in _PROC_DIR:
+        from multiprocessing import util
+
+        d = tempfile.mkdtemp(prefix="verif-c06p-")
+        _PROC_DIR.clear()
+        _PROC_DIR[pid] = d
+        util.Finalize(None, shutil.rmtree, args=(d, True), exitpriority=1)
+        import atexit
+
+        atexit.register(shutil.rmtree, d, True)
+    return _PROC_DIR[pid]
+
+
 def check_case(acc, case) -> list[dict]:
     mk = (acc or Acc(PROPERTY, "replay")).violation
-    tmp = tempfile.mkdtemp(prefix="verif-c06-")
+    tmp = _process_dir()
     vs = []
     try:
         w_text, i_text, st_w, st_i, n_layers = build(case, tmp)
@@ -199,7 +220,8 @@ def check_case(acc, case) -> list[dict]:
         except Exception as exc:  # noqa: BLE001
             return [mk(f"C06:render-raises:{type(exc).__name__}", case, "documents", f"{type(exc).__name__}: {exc}\n{w_text}")]
     finally:
-        shutil.rmtree(tmp, ignore_errors=True)
+        for name in os.listdir(tmp):
+            os.unlink(os.path.join(tmp, name))
     # pre-transform
     got = between(dw)
     exp = between(di)
